@@ -27,6 +27,7 @@ type Knobs struct {
 	IdleTxTimeout          int64 `json:"idle_tx_timeout,omitempty"`
 	ReadOnlyTxTTL          int64 `json:"ro_tx_ttl,omitempty"`
 	ReadWriteTxTTL         int64 `json:"rw_tx_ttl,omitempty"`
+	CompactionLevels       int   `json:"compaction_levels,omitempty"`
 }
 
 func GenKnobs(r *Rand) Knobs {
@@ -70,6 +71,9 @@ func (k Knobs) Apply(c *config.Config) {
 	}
 	if k.ReadWriteTxTTL > 0 {
 		c.ReadWriteTxTTL = k.ReadWriteTxTTL
+	}
+	if k.CompactionLevels > 0 {
+		c.CompactionLevels = k.CompactionLevels
 	}
 }
 
